@@ -597,6 +597,30 @@ func corrupt(r *rng, kind string, d JV, g *gen) JV {
 			continue
 		}
 		j := r.intn(len(o.o.O))
+		// one time in four: an element of a list-valued member of this object (string lists, value
+		// lists and lists of objects alike) is replaced by, or gets as a neighbour, a value of
+		// another JSON type
+		if r.chance(1, 4) {
+			lists := []int{}
+			for k := range o.o.O {
+				if o.o.O[k].V.K == 'a' {
+					lists = append(lists, k)
+				}
+			}
+			if len(lists) > 0 {
+				k := pick(r, lists)
+				arr := append([]JV{}, o.o.O[k].V.A...)
+				bad := pick(r, []JV{jNull(), jNum(1), jNum(-0.5), jStr("x"), jStr(""), jBool(true), jArr(), jObj()})
+				if len(arr) > 0 && r.bool() {
+					arr[r.intn(len(arr))] = bad
+				} else {
+					p := r.intn(len(arr) + 1)
+					arr = append(arr[:p], append([]JV{bad}, arr[p:]...)...)
+				}
+				o.o.O[k].V = JV{K: 'a', A: arr}
+				continue
+			}
+		}
 		switch r.intn(6) {
 		case 0: // drop
 			o.o.O = append(append([]KV{}, o.o.O[:j]...), o.o.O[j+1:]...)
@@ -641,8 +665,64 @@ func decodeFlagPaths(data []byte) (vals []ldmodel.FeatureFlag, errs []error, nam
 	if e4 != nil {
 		f4 = f2 // on error the destination keeps its old content; nothing to compare
 	}
-	return []ldmodel.FeatureFlag{f1, f2, f3, f4}, []error{e1, e2, e3, e4},
-		[]string{"serialization", "encoding/json", "jreader", "encoding/json into a previously used destination"}
+	vals = []ldmodel.FeatureFlag{f1, f2, f3, f4}
+	errs = []error{e1, e2, e3, e4}
+	names = []string{"serialization", "encoding/json", "jreader", "encoding/json into a previously used destination"}
+	// the reader entry point in its documented use: items embedded in a larger document, read one
+	// after the other through the same reader (only for documents that are complete on their own)
+	if e3 == nil && json.Valid(data) {
+		items := embeddedItems(data, func(r *jreader.Reader) any { return ldmodel.UnmarshalFeatureFlagFromJSONReader(r) })
+		for i, it := range items {
+			f, ok := it.(ldmodel.FeatureFlag)
+			if !ok {
+				vals, errs, names = append(vals, ldmodel.FeatureFlag{}), append(errs, it.(error)), append(names, fmt.Sprintf("jreader, item %d of an enclosing document", i))
+				continue
+			}
+			vals, errs, names = append(vals, f), append(errs, nil), append(names, fmt.Sprintf("jreader, item %d of an enclosing document", i))
+		}
+	}
+	return vals, errs, names
+}
+
+// embeddedItems decodes the same document three times from inside one enclosing document
+// ({"pre":…, "items":[doc, doc], "more":{"x":doc}, "post":…}) with one reader.
+func embeddedItems(doc []byte, read func(r *jreader.Reader) any) []any {
+	var b bytes.Buffer
+	b.WriteString(`{"pre":[1,{"x":null},"s"],"items":[`)
+	b.Write(doc)
+	b.WriteString(`,`)
+	b.Write(doc)
+	b.WriteString(`],"more":{"unknown":true,"x":`)
+	b.Write(doc)
+	b.WriteString(`},"post":"y"}`)
+	rd := jreader.NewReader(b.Bytes())
+	out := []any{}
+	for obj := rd.Object(); obj.Next(); {
+		switch string(obj.Name()) {
+		case "items":
+			for arr := rd.Array(); arr.Next(); {
+				out = append(out, read(&rd))
+			}
+		case "more":
+			for o2 := rd.Object(); o2.Next(); {
+				if string(o2.Name()) == "x" {
+					out = append(out, read(&rd))
+				} else {
+					_ = rd.SkipValue()
+				}
+			}
+		default:
+			_ = rd.SkipValue()
+		}
+	}
+	if err := rd.Error(); err != nil {
+		out = append(out, fmt.Errorf("reading the enclosing document failed: %v", err))
+	} else if err := rd.RequireEOF(); err != nil {
+		out = append(out, fmt.Errorf("enclosing document not consumed to its end: %v", err))
+	} else if len(out) != 3 {
+		out = append(out, fmt.Errorf("%d items read from the enclosing document instead of 3", len(out)))
+	}
+	return out
 }
 
 const richFlagDoc = `{"key":"old","version":41,"on":true,"salt":"old-salt","prerequisites":[{"key":"p","variation":1}],` +
@@ -691,8 +771,21 @@ func decodeSegmentPaths(data []byte) (vals []ldmodel.Segment, errs []error, name
 	if e4 != nil {
 		f4 = f2 // on error the destination keeps its old content; nothing to compare
 	}
-	return []ldmodel.Segment{f1, f2, f3, f4}, []error{e1, e2, e3, e4},
-		[]string{"serialization", "encoding/json", "jreader", "encoding/json into a previously used destination"}
+	vals = []ldmodel.Segment{f1, f2, f3, f4}
+	errs = []error{e1, e2, e3, e4}
+	names = []string{"serialization", "encoding/json", "jreader", "encoding/json into a previously used destination"}
+	if e3 == nil && json.Valid(data) {
+		items := embeddedItems(data, func(r *jreader.Reader) any { return ldmodel.UnmarshalSegmentFromJSONReader(r) })
+		for i, it := range items {
+			s, ok := it.(ldmodel.Segment)
+			if !ok {
+				vals, errs, names = append(vals, ldmodel.Segment{}), append(errs, it.(error)), append(names, fmt.Sprintf("jreader, item %d of an enclosing document", i))
+				continue
+			}
+			vals, errs, names = append(vals, s), append(errs, nil), append(names, fmt.Sprintf("jreader, item %d of an enclosing document", i))
+		}
+	}
+	return vals, errs, names
 }
 
 func encodeFlagPaths(f ldmodel.FeatureFlag) (outs [][]byte, errs []error, names []string) {
@@ -703,7 +796,32 @@ func encodeFlagPaths(f ldmodel.FeatureFlag) (outs [][]byte, errs []error, names 
 	ldmodel.MarshalFeatureFlagToJSONWriter(f, &w)
 	b3, e3 := w.Bytes(), w.Error()
 	b4, e4 := f.MarshalJSON()
-	return [][]byte{b1, b2, b3, b4}, []error{e1, e2, e3, e4}, []string{"serialization", "encoding/json", "jwriter", "MarshalJSON"}
+	w2 := jwriter.NewWriter()
+	arr := w2.Array()
+	ldmodel.MarshalFeatureFlagToJSONWriter(f, &w2)
+	ldmodel.MarshalFeatureFlagToJSONWriter(f, &w2)
+	arr.End()
+	b5, e5 := secondOfTwo(w2.Bytes(), w2.Error())
+	return [][]byte{b1, b2, b3, b4, b5}, []error{e1, e2, e3, e4, e5}, []string{"serialization", "encoding/json", "jwriter", "MarshalJSON", "jwriter, second of two values in one array"}
+}
+
+// secondOfTwo takes the JSON text of an array of two values and returns the text of the second
+// (an error if the text is not such an array, or if the two elements differ).
+func secondOfTwo(data []byte, err error) ([]byte, error) {
+	if err != nil {
+		return nil, err
+	}
+	var items []json.RawMessage
+	if e := json.Unmarshal(data, &items); e != nil {
+		return nil, fmt.Errorf("two values written into one array do not form valid JSON: %v", e)
+	}
+	if len(items) != 2 {
+		return nil, fmt.Errorf("two values written into one array produced %d elements", len(items))
+	}
+	if !sameJSONBytes(items[0], items[1]) {
+		return nil, fmt.Errorf("the same value written twice into one writer gave two different texts")
+	}
+	return items[1], nil
 }
 
 func encodeSegmentPaths(f ldmodel.Segment) (outs [][]byte, errs []error, names []string) {
